@@ -219,3 +219,46 @@ def body_expand(sel: int) -> bool:
         if p.expand_decay_modes(m) != got:
             return fail(f"expand_decay_modes({m!r}) differs between two calls")
     return True
+
+
+# ---- branching fractions and parameters of nested chains for every numeric value (hand-built tree behind a Lark stub) ----------------
+N_VALUES = 3
+
+
+def body_chain_values(sel: int, x: float, y: float, z: float) -> bool:
+    import warnings
+    from lark import Tree
+    import decaylanguage.dec.dec as decmod
+    from decaylanguage.dec.dec import DecFileParser
+    from .c01 import Tok, _StubLark
+    T = lambda name, *ch: Tree(name, list(ch))
+
+    def line(bf, ds, params=None):
+        m = [Tok("HELAMP")] + ([T("model_options", *[T("value", Tok(p)) for p in params])] if params else [])
+        return T("decayline", T("value", Tok(bf)), *[T("particle", Tok(d)) for d in ds], T("model", *m))
+
+    def block(m, *lines):
+        return T("decay", T("particle", Tok(m)), *lines)
+
+    tree = T("start", block("D0", line(y, ["K_S0", "pi0", "K_S0"], [z, x]), line(z, ["pi0"])), block("B0", line(x, ["D0", "K_S0", "D0"])),
+             block("K_S0", line(z, ["pi+", "pi-"], [y])), block("pi0"))
+    _StubLark.tree = tree
+    old = decmod.Lark
+    decmod.Lark = _StubLark
+    try:
+        p = DecFileParser.from_string("given as a tree")
+        with warnings.catch_warnings():
+            warnings.simplefilter("ignore")
+            p.parse()
+    finally:
+        decmod.Lark = old
+    S = [[], ["K_S0"], ["D0", "pi0"]][sel]
+    ks = "K_S0" if "K_S0" in S else {"K_S0": [{"bf": z, "fs": ["pi+", "pi-"], "model": "HELAMP", "model_params": [y]}]}
+    p0 = "pi0" if "pi0" in S else {"pi0": []}
+    d0 = "D0" if "D0" in S else {"D0": [{"bf": y, "fs": [ks, p0, ks], "model": "HELAMP", "model_params": [z, x]},
+                                        {"bf": z, "fs": [p0], "model": "HELAMP", "model_params": ""}]}
+    exp = {"B0": [{"bf": x, "fs": [d0, ks, d0], "model": "HELAMP", "model_params": ""}]}
+    got = p.build_decay_chains("B0", stable_particles=S)
+    if got != exp:
+        return fail(f"chain for x={x!r}, y={y!r}, z={z!r}, stable {S}: {got!r}, expected {exp!r}")
+    return True
